@@ -72,6 +72,42 @@ def check(ctx):
     ctx.oblige("R-C03.3", "kinds accepted by the two specifier loops", ok, sample={"rule": "R-C03.3", "declaration specifiers": sorted(a), "specifier-qualifier list": sorted(b)})
     if not ok:
         ctx.violation("R-C03.3", f"sibling-kinds:{sorted(a)}:{sorted(b)}", f"declaration specifiers accept kinds {sorted(a)}, specifier-qualifier lists {sorted(b)}: they must differ exactly by storage-class and function specifiers", file=px.rel, function="CParser._parse_specifier_qualifier_list")
+    # ---- R-C03.4: specifier conservation in the builders ---------------------------------------------------------------
+    # Which kinds of specifier C allows where (6.7p1, 6.7.1, 6.7.4, 6.7.5, 6.7.6 type-name):  declarations: all five kinds;  typedefs: qualifiers,
+    # the `typedef` storage class and types;  parameter declarations: qualifiers, `register` and types;  type names (specifier-qualifier list): qualifiers and types.
+    import re as _re
+    REQUIRED = {"Decl": {"qual", "storage", "function", "alignment"}, "Typedef": {"qual", "storage"}}
+    ctx.rule("R-C03.4", "specifier conservation: a node built from a specifier record receives every kind of specifier that C allows in that context (qualifiers, storage class, function specifiers, alignment) - none is collected by the specifier loop and then dropped by the builder")
+    n34 = 0
+    for meth, info in sorted(cur.items()):
+        for lab, fa in info["records"]:
+            cls = lab.split(">")[-1]
+            if cls not in ("Decl", "Typedef", "Typename"):
+                continue
+            srcs = {}
+            for f_, vals in fa.items():
+                for v in vals:
+                    for base, kind in _re.findall(r"((?:param:#\d+|_parse_[a-z_]+#\d+\+?(?:\[\d\])?))\[(qual|storage|function|alignment|type)\]", v):
+                        srcs.setdefault(base, set()).add(kind)
+            for base, got in sorted(srcs.items()):
+                if "qual" not in got:
+                    continue          # not built from a specifier record (a field of one flows in for another reason)
+                if cls == "Typename":
+                    # a type name made from DECLARATION specifiers (an unnamed parameter) can carry a storage class; one made from a specifier-qualifier list cannot
+                    from_decl_specs = base.startswith("_parse_declaration_specifiers") or (base.startswith("param:") and any(
+                        v2.startswith("_parse_declaration_specifiers") for m2, i2 in cur.items() for l2, f2 in i2["records"] if l2 == "call:" + meth for v2 in f2.get("p" + base.split("#")[1], [])))
+                    need = {"qual", "storage"} if from_decl_specs else {"qual"}
+                else:
+                    need = REQUIRED[cls]
+                missing = sorted(need - got)
+                n34 += 1
+                ctx.oblige("R-C03.4", f"{meth}: {cls} built from {base} receives {sorted(need)}", not missing, sample={"rule": "R-C03.4", "builder": meth, "node": cls, "specifier record": base, "kinds wired into the node": sorted(got), "kinds C allows here": sorted(need)})
+                if missing:
+                    ex = "void f(register int);" if cls == "Typename" else ""
+                    ctx.violation("R-C03.4", f"specifier-dropped:{meth}:{cls}:{','.join(missing)}", f"{meth} builds a {cls} from the specifier record {base} but never reads its {missing} entry: specifiers of that kind, which C allows in this context, are parsed and then "
+                                  f"silently dropped from the AST{' (e.g. `' + ex + '` loses `register`: an unnamed parameter becomes a Typename, which has no storage field)' if ex else ''}", file=px.rel, function=f"CParser.{meth}")
+    if n34 < 3:
+        raise AnalysisError(f"only {n34} nodes built from specifier records found (confirmed by reading: Decl, Typedef, Typename in the builders)")
     ctx.info["explanation"] = ("def-use wiring of the declaration, declarator, struct/enum, initialiser productions and of the declaration builders compared with the reviewed reference (which call site feeds which field / list, "
                                "in which order modifiers are spliced); per-branch check of the two specifier loops (kind vs token table, append=True, saw_type); sibling agreement of the two loops")
     ctx.assumptions += ["the splice loops of _type_modify_decl / _fix_decl_name_type / fix_atomic_specifiers are not proved correct for arbitrary derivation sequences (shape analysis would be needed)",
